@@ -176,7 +176,15 @@ func (E *Engine) doAlloc(st *State, x *ssa.Alloc) {
 	}
 	ref := E.newObject(st, "new:"+x.Comment)
 	lv := &LVal{Kind: lvHeap, Ref: ref, Root: et}
+	// a named local whose address escapes (captured by a closure): its own cell family
+	if _, isStruct := types.Unalias(et).Underlying().(*types.Struct); !isStruct && x.Comment != "" && !strings.Contains(x.Comment, "complit") && !strings.Contains(x.Comment, "varargs") && !strings.Contains(x.Comment, "makeslice") && !strings.HasPrefix(x.Comment, "new") {
+		lv.VarCell = true
+	}
 	E.store(st, lv, E.zeroVal(et))
+	if lv.VarCell {
+		st.regs[x] = &Val{T: x.Type(), S: ref, Sort: SInt, LV: lv}
+		return
+	}
 	st.regs[x] = &Val{T: x.Type(), S: ref, Sort: SInt}
 }
 
